@@ -85,6 +85,8 @@ func (r *Runner) header() {
 	for _, at := range r.a.allAddrAtomsSorted() {
 		fmt.Fprintf(r.out, "A %d %x\n", at, r.a.addrBytes[at])
 	}
+	// the module registered for modSvc: provider atom, result code, output atom, output valid
+	fmt.Fprintf(r.out, "M %d %d %d 1\n", r.a.atomOfAddr(r.w.modProv), modSvcCode, modSvcOut)
 	for _, f := range h.Funding {
 		fmt.Fprintf(r.out, "F %d %d\n", f[0], f[1])
 	}
